@@ -414,7 +414,7 @@ pub fn run(ctx: &Ctx) -> ! {
     rep.extra("space_size", json!(sp.total));
     rep.extra("segments", json!(sp.segs.len()));
     rep.extra("worker_processes", json!(nworkers));
-    let res = isolate::run_sweep(ctx, "main", sp.total, nworkers, 400);
+    let res = isolate::run_sweep(ctx, "main", sp.total, nworkers, 1000);
     if std::env::var_os("C05_DEBUG").is_some() {
         eprintln!("sweep finished after {:.2}s: {} lines, {} deaths", ctx.elapsed_s(), res.lines.len(), res.deaths.len());
     }
@@ -515,7 +515,7 @@ pub fn run(ctx: &Ctx) -> ! {
         if !loc.is_empty() {
             *locations.entry(format!("{} @ {loc}", l["msg"].as_str().unwrap_or(""))).or_insert(0) += 1;
         }
-        let site = if class == "roundtrip-mismatch" { inp.seg.site.to_string() } else { site_from_location(loc).unwrap_or(inp.seg.site.to_string()) };
+        let site = if class == "roundtrip-mismatch" { inp.seg.site.to_string() } else { site_from_location(loc).unwrap_or(inp.site().to_string()) };
         let what = if loc.is_empty() { l["msg"].as_str().unwrap_or("").to_string() } else { format!("{} at {loc}", l["msg"].as_str().unwrap_or("")) };
         findings.push(Finding {
             key: format!("C05/{class}:{site}"),
@@ -528,7 +528,7 @@ pub fn run(ctx: &Ctx) -> ! {
     for d in real_deaths {
         let inp = sp.input(d.index);
         let (class, what) = death_class(&d.status, &d.stderr_tail);
-        let site = inp.seg.site.to_string();
+        let site = inp.site().to_string();
         findings.push(Finding {
             key: format!("C05/{class}:{site}"),
             bytes_len: inp.bytes.len(),
